@@ -37,9 +37,31 @@ def run(tier, seed):
                 res.sample({"types": r["types"], "blob_hex": bytes(r["blob"]).hex(), "real": r["real"], "env": {k: v for k, v in r["env"].items() if not k.startswith("p_")}})
     res.cov["parts"]["decoded_ok_by_impl"] = ok
     classify(res, trace, bad)
+    # the language-independent conformance suite (test/*.test.did): the specification must come out as the files assert
+    # (a SUITE mismatch is a specification bug = tool error), and the real decoder must agree with the specification on every blob
+    st = os.path.join(wd, "suite.ndjson")
+    aborts = run_harness_supervised(["suite", os.path.join(REPO, "test")], st)
+    v = tlc_validate("Trace_Suite", st, wd, shards=4)
+    res.add_states(v)
+    res.cov["traces_validated_against_impl"] += v["lines"]
+    res.cov["parts"]["conformance_suite_assertions"] = v["lines"]
+    sbad = {}
+    for ln, det in v["mismatches"]:
+        sbad.setdefault(ln, []).append(det.strip('"'))
+    if any(t == "SUITE" for ts in sbad.values() for t in ts):
+        raise ToolError("specification disagrees with the conformance suite on lines %s" % [ln for ln, ts in sbad.items() if "SUITE" in ts][:10])
+    srecs = read_lines(st, sbad.keys())
+    for ln, tags in sbad.items():
+        r = srecs[ln]
+        for t in tags:
+            side = r.get("left") if t == "IMPL-LEFT" else r.get("right")
+            o = (side or {}).get("real") or r.get("abort")
+            site = "panic@" + o["panic"] if isinstance(o, dict) and "panic" in o else "untyped-decode"
+            res.violation("suite:" + ("abort" if t == "abort" else "real_differs_from_spec"), site, {"file": r.get("file"), "assertion": r.get("n"), "types": r.get("types"),
+                          "blob_hex": bytes((side or {}).get("blob", [])).hex(), "obs": o}, "conformance suite input: real decoder vs Wire.Parse + Coerce")
     res.rule = ("TLC (MC_Decode level %d): every (wire type, inhabitant, expected type) over depth-<=2 type trees, message produced by the specification's encoder; harness: %d seeded cases - random recursive "
                 "environments with 0-2 arguments decoded at related/unrelated expected type sequences (surplus, missing), and byte-level mutants (flip, truncate, insert opcode, duplicate, over-long LEB); each through "
-                "from_bytes_with_types and the step-wise IDLDeserialize session; non-trivial = message longer than 8 bytes; distinct by (bytes, expected types, environment)" % (level, nrand))
+                "from_bytes_with_types and the step-wise IDLDeserialize session; plus every assertion of the conformance suite test/*.test.did (specification checked against the asserted outcome, real decoder against the specification); non-trivial = message longer than 8 bytes; distinct by (bytes, expected types, environment)" % (level, nrand))
     res.cov["exhaustive"] = True
     res.assumptions = ["interpretation ledger of DESIGN.md §6.2 (single-byte constructor opcodes, <=10000 table entries, principal <=29 bytes, <=1 annotation, opaque references unsupported, uninhabited wire records = empty)",
                        "messages the specification classifies as bombs (more than 20000 values) are not judged"]
